@@ -51,14 +51,17 @@ META = {
         "(slug_func=...); if it relies on the plugin's slugify instead, the two pipelines must be equal operation by operation. "
         "The regex of the default slug function (parsed tree with canonical class order, flags) equals the plugin's transcription "
         "of GitHub's rule, and because Python's \\w lacks part of Ruby's \\p{Word}, the replacement must be a callable that keeps "
-        "combining marks (M*) and ZWNJ/ZWJ and deletes the rest; (b) the ordered str-method pipeline (locals inlined, idempotent "
+        "combining marks (M*) and ZWNJ/ZWJ and deletes the rest; the remaining difference of \\w to \\p{Word} (No kept, Pc other than "
+        "'_' removed) is reported as a known finding while the class is built on \\w; (b) the ordered str-method pipeline (locals inlined, idempotent "
         "duplicates collapsed, strip/lower commute) is lower-case, spaces to hyphens, punctuation removed - compared with the "
         "plugin's, whose own strip() is only required while the CLI still slugs with the plugin's function; (c) the title is "
         "gathered - as a comprehension, an append/join loop, a `+=` loop or in a package helper - from the same attribute of the "
         "same token types of the `.children` of the inline token at the same offset as in the plugin, that gather is the only "
         "source of the title, and the slug function is applied to it; (d) the CLI installs the plugin with the level it filters "
         "by (inclusive), that level does not pass through a truthiness default (depth 0 is legal), its output filter tests "
-        "heading-ness and depth only, its input is decoded with a BOM-dropping encoding (as the docutils/Sphinx readers do), it "
+        "heading-ness and depth only, a named input is decoded with a BOM-dropping encoding or, like the text read from sys.stdin, "
+        "loses a leading U+FEFF on the data flow into parser.render (removeprefix/lstrip/replace/startswith-slice, followed through "
+        "local names and helper parameters), it calls the configuration merge the front ends call (reported: known finding), it "
         "builds its parser through the factory family both front ends use with no tokenisation-relevant configuration field "
         "overridden, and switches no syntax rule afterwards (the command's helpers in cli.py are followed); (e) either the CLI "
         "renders with a DocutilsRenderer subclass, or the slug computation is not reachable from nested_render_text - otherwise "
@@ -68,7 +71,9 @@ META = {
         "evaluated statically) admits every depth 0-7 the property quantifies over. "
         "R4 the configured slug function wins when set and is called; the call is under except Exception/BaseException/bare; "
         "all paths through that handler issue exactly one HEADING_SLUG warning (helpers that warn on all their paths are "
-        "followed), no other warning, store nothing into the registry or node['slug'], and cannot raise; the configuration field that "
+        "followed), no other warning, store nothing into the registry or node['slug'], and cannot raise; every normal path from the "
+        "call of the slug function to the exit of compute_unique_slug crosses an edge on which isinstance(result, str) - str only - "
+        "holds (asserts do not count); the configuration field that "
         "feeds the slug function is marked global_only and merge_file_level reaches setattr/validate_field only behind a negative "
         "global_only test (a document cannot choose the function that computes its own anchors); a configuration object that is "
         "stored on the Sphinx environment drops the slug function from its pickled state (__getstate__), so that a function "
@@ -94,8 +99,8 @@ META = {
         "priority, C09); how the configuration values heading_anchors / heading_slug_func reach the renderer (validation and "
         "file-level merge: C13); survival of the published slug table across Sphinx parallel workers (C15); the warning issued "
         "for a missing cross-document anchor (C12); the CLI is compared with a default-configured render only (it cannot see conf.py); "
-        "whether the characters GitHub's \\p{Word} covers beyond M* and the two join controls (none known) are kept; the encoding of "
-        "text piped through stdin; "
+        "the exact category boundaries of GitHub's \\p{Word} beyond M*, the join controls, No and Pc (the references disagree on Nl); "
+        "configuration that a build takes from conf.py / docutils.conf, which myst-anchors cannot see; "
         "the percent-encoding markdown-it applies to a link fragment before it reaches the resolver (non-ASCII anchors), and key "
         "transformations other than the tabled many-to-one mappings"
     ),
@@ -1273,6 +1278,20 @@ def r2_sibling_agreement(corpus: Corpus, rep: Report, tier: str):
             )
         else:
             rep.ok("C10.R2", k, rsite, rm[0][3])
+        # Python's \w also differs from \p{Word} in two categories that no replacement callable repairs by itself:
+        # 'other number' (No) is matched by \w (kept), connector punctuation (Pc) other than '_' is not (removed)
+        kw_ = f"{dfi.fq}|Python's word class stands in for GitHub's: other-number characters kept, connector punctuation removed"
+        facts_ = set(rm[0][3][5:].split(",")) if rm[0][3].startswith("keep:") else set()
+        if "cat:Pc" in facts_ or "cat:P*" in facts_:
+            raise Unsupported(f"{rsite}: the replacement keeps connector punctuation; agreement of the remaining categories with GitHub's word class not decided")
+        rep.violation(
+            "C10.R2",
+            kw_,
+            rsite,
+            "the kept class is Python's `\\w`, which contains the 'other number' characters (No: superscripts, fractions, circled digits) that GitHub's \\p{Word} lacks, and lacks the "
+            "connector punctuation (Pc) other than '_' that it contains: '# CO₂ per m²' gets 'co₂-per-m²' where GitHub gives 'co-per-m', "
+            "'# snake‿case' gets 'snakecase' where GitHub keeps the connector",
+        )
     else:
         raise Unsupported(f"{rsite}: slug regex is not built on \\w; kept character set not decided")
     # (b) str pipeline
@@ -1549,6 +1568,46 @@ def _field_default(corpus: Corpus, fld: str):
     raise Unsupported(f"MdParserConfig has no field {fld}")
 
 
+def _rendered_text_drops_bom(cli: Module, fam: list[FunctionInfo]) -> bool:
+    """The text given to `<parser>.render(...)` has passed a call that removes a LEADING U+FEFF (data flow through local names)."""
+    BOM = "\ufeff"
+    for f in fam:
+        if f.is_lambda:
+            continue
+        for n in walk_local(f.node, into_lambdas=False):
+            if not (isinstance(n, ast.Call) and isinstance(n.func, ast.Attribute) and n.func.attr == "render" and len(n.args) >= 1):
+                continue
+            srcs = list(_key_sources(None, f, n.args[0], 4))
+            # a parameter of a helper of the command: what its callers in the family pass
+            for src in list(srcs):
+                if isinstance(src, ast.Name) and src.id in f.params:
+                    idx = f.params.index(src.id)
+                    for g_ in fam:
+                        if g_.is_lambda:
+                            continue
+                        for c in walk_local(g_.node, into_lambdas=False):
+                            if isinstance(c, ast.Call) and isinstance(c.func, ast.Name) and c.func.id == f.name:
+                                a_ = arg_or_kw(c, idx, src.id)
+                                if a_ is not None:
+                                    srcs.extend(_key_sources(None, g_, a_, 4))
+            for src in srcs:
+                for c in ast.walk(src):
+                    if isinstance(c, ast.Call) and isinstance(c.func, ast.Attribute) and c.args and isinstance(c.args[0], ast.Constant) and isinstance(c.args[0].value, str):
+                        a0 = c.args[0].value
+                        if c.func.attr == "removeprefix" and a0 == BOM:
+                            return True
+                        if c.func.attr in ("lstrip", "strip") and BOM in a0:
+                            return True
+                        if c.func.attr == "replace" and a0 == BOM and len(c.args) >= 2 and isinstance(c.args[1], ast.Constant) and c.args[1].value == "":
+                            return True
+                    if isinstance(c, ast.IfExp) and isinstance(c.body, ast.Subscript) and isinstance(c.body.slice, ast.Slice) and any(
+                        isinstance(x, ast.Call) and isinstance(x.func, ast.Attribute) and x.func.attr == "startswith" and x.args and isinstance(x.args[0], ast.Constant) and x.args[0].value == BOM
+                        for x in ast.walk(c.test)
+                    ):
+                        return True
+    return False
+
+
 def _r2_cli_bom(rep: Report, cli: Module, pa: FunctionInfo, fam: list[FunctionInfo]) -> None:
     """docutils' and Sphinx' readers drop a leading U+FEFF; a CLI that keeps it does not see a heading on line 1."""
     k = f"{pa.fq}|CLI input is decoded without a byte order mark"
@@ -1567,11 +1626,33 @@ def _r2_cli_bom(rep: Report, cli: Module, pa: FunctionInfo, fam: list[FunctionIn
                 opens.append(n)
     if not opens:
         raise Unsupported(f"{pa.fq}: how the CLI opens its input is not understood")
-    strips = any(
-        isinstance(c, ast.Constant) and isinstance(c.value, str) and "\ufeff" in c.value
-        for f in fam
-        for c in (ast.walk(f.node.body) if f.is_lambda else walk_local(f.node))
-    )
+    strips = _rendered_text_drops_bom(cli, fam)
+    # the standard input (the documented default) is not opened by the command: only the text itself can lose the mark
+    ks = f"{pa.fq}|text read from the standard input loses its byte order mark"
+    stdin_uses = []
+    for f in fam:
+        for n in ast.walk(f.node.body) if f.is_lambda else walk_local(f.node):
+            if isinstance(n, ast.Attribute) and n.attr == "stdin" and cli.resolve(dotted(n) or "") == "sys.stdin":
+                stdin_uses.append(n)
+    if stdin_uses:
+        rewrapped = any(
+            isinstance(c, ast.Call)
+            and "stdin" in unparse(c)
+            and any(isinstance(x, ast.Constant) and isinstance(x.value, str) and x.value.lower().replace("_", "-") in ("utf-8-sig", "utf8-sig") for x in ast.walk(c))
+            and (dotted(c.func) or "").split(".")[-1] in ("reconfigure", "TextIOWrapper", "getreader", "open")
+            for f in fam
+            for c in (ast.walk(f.node.body) if f.is_lambda else walk_local(f.node))
+        )
+        if strips or rewrapped:
+            rep.ok("C10.R2", ks, cli.site(stdin_uses[0]), "U+FEFF is removed from the text that is rendered" if strips else "stdin is re-opened as utf-8-sig")
+        else:
+            rep.violation(
+                "C10.R2",
+                ks,
+                cli.site(stdin_uses[0]),
+                "`sys.stdin` is an input of the command but only a named file is opened as utf-8-sig and the text handed to the parser is not stripped of a leading U+FEFF: "
+                "`myst-anchors < doc.md` for a file starting with a byte order mark and `# Hello` does not print `hello`, which the build assigns and `myst-anchors doc.md` prints",
+            )
     for n in opens:
         enc = kwarg(n, "encoding")
         if enc is None:
@@ -1645,6 +1726,40 @@ def _r2_cli_nested_headings(corpus: Corpus, rep: Report, cli: Module, fcall: ast
             "myst-anchors slugs the top-level markdown-it tokens only (a directive is an opaque fence): `# Setup`, a {note} containing `## Setup`, `## Setup` gives "
             "setup, setup-1 (the rubric in the note), setup-2 in a build but setup, setup-1 from myst-anchors, so the printed anchor of the last heading links into the admonition",
             [f"{nrt.module.site(nrt.node)} {nrt.qualname}", f"{site} {short(call, 50)}", f"{cli.rel} print_anchors: one markdown-it pass over the file text"],
+        )
+
+
+def _r2_cli_file_level_config(corpus: Corpus, rep: Report, cli: Module, pa: FunctionInfo, fam: list[FunctionInfo], fronts: list[FunctionInfo], fcall: ast.Call) -> None:
+    """Both front ends merge the file's own `myst:` front matter into the configuration before they build the parser;
+    a listing command that does not tokenises such a file with other syntax extensions than the build."""
+    g = get_callgraph(corpus)
+    mergers = set()
+    for fr in fronts:
+        for call, targets in g.callees(fr):
+            for t in g.flat_targets(targets):
+                if t.module.name.endswith("config.main") and t.name in ("merge_file_level", "read_topmatter"):
+                    mergers.add(t.fq)
+    k = f"{pa.fq}|CLI ignores the file-level configuration that the front ends merge"
+    if not mergers:
+        rep.ok("C10.R2", k, cli.site(fcall), "the front ends do not merge file-level configuration")
+        return
+    called = set()
+    for f in fam:
+        if f.is_lambda:
+            continue
+        for call, targets in g.callees(f):
+            for t in g.flat_targets(targets):
+                called.add(t.fq)
+    if mergers & called:
+        rep.ok("C10.R2", k, cli.site(fcall), f"myst-anchors calls {sorted(m.split(':')[1] for m in mergers & called)}")
+    else:
+        rep.violation(
+            "C10.R2",
+            k,
+            cli.site(fcall),
+            f"the front ends call {', '.join(sorted(m.split(':')[1] for m in mergers))} on every file and build the parser from the merged configuration; myst-anchors never does, so for a file "
+            "whose own `myst:` front matter enables extensions (dollarmath with `# Energy $E=mc^2$ explained`, deflist with a heading inside a definition) it prints "
+            "`energy-emc2-explained` / one `inside` while a build assigns `energy--explained` / `inside`, `inside-1`",
         )
 
 
@@ -1749,6 +1864,7 @@ def _r2_cli_tokeniser(corpus: Corpus, rep: Report, cli: Module, pa: FunctionInfo
     fcall = calls[0][0]
     rep.saw_call(cli.site(fcall))
     _r2_cli_nested_headings(corpus, rep, cli, fcall)
+    _r2_cli_file_level_config(corpus, rep, cli, pa, fam, fronts, fcall)
     carg = arg_or_kw(fcall, 0, factory.params[0])
     if isinstance(carg, ast.Name):
         ds = _assigns_to(bf, carg.id)
@@ -2219,9 +2335,51 @@ def r4_foreign_callable(corpus: Corpus, rep: Report, tier: str):
             rep.ok("C10.R4", k, hsite)
         else:
             rep.violation("C10.R4", k, hsite, "a path through the failure handler still writes a slug record / node['slug']: the failure produces more than a warning")
+    _r4_result_is_str(corpus, rep, cus, sel)
     _r4_global_only(corpus, rep)
     _r4_picklable_config(corpus, rep)
     rep.expect_min("C10.R4", 2, "selection orientation and one call site (handler breadth; then warning count, store, raise)")
+
+
+def _r4_result_is_str(corpus: Corpus, rep: Report, cus: FunctionInfo, sel: dict) -> None:
+    """What a user-supplied function returns becomes a key of the slug table and the `slug` attribute: before it is used,
+    every path must have established isinstance(result, str) - the other outcome raising inside the guarded call, so that
+    it is reported like a function that raises."""
+    cfg = get_cfg(cus)
+    k = f"{cus.fq}|slug function result is checked to be a string"
+    for call in sel["calls"]:
+        st = parent(call)
+        if not (isinstance(st, ast.Assign) and st.value is call and len(st.targets) == 1 and isinstance(st.targets[0], ast.Name)):
+            raise Unsupported(f"{cus.module.site(call)}: result of the slug function is not bound to a name")
+        res = st.targets[0].id
+        ok_edges = set()
+        partial = []
+        for n in walk_local(cus.node):
+            if not isinstance(n, (ast.If, ast.While)):
+                continue
+            for pol in (True, False):
+                for t, p_ in facts(n.test, pol):
+                    if isinstance(t, ast.Call) and dotted(t.func) == "isinstance" and len(t.args) == 2 and isinstance(t.args[0], ast.Name) and t.args[0].id == res:
+                        ty = t.args[1]
+                        only_str = (isinstance(ty, ast.Name) and ty.id == "str") or (isinstance(ty, ast.Tuple) and bool(ty.elts) and all(isinstance(e, ast.Name) and e.id == "str" for e in ty.elts))
+                        if p_ and only_str:
+                            ok_edges.add(("T" if pol else "F", n))
+                        elif p_:
+                            partial.append(t)
+        site = cus.module.site(call)
+        # every path from the call to a normal exit crosses an edge on which isinstance(res, str) holds
+        if not cfg.paths_avoiding(st, EXIT, lambda n: n in ok_edges):
+            rep.ok("C10.R4", k, site, f"every normal path after `{short(st, 40)}` has passed isinstance({res}, str)")
+        else:
+            extra = f" (the test `{short(partial[0], 50)}` also lets other types through)" if partial else ""
+            rep.violation(
+                "C10.R4",
+                k,
+                site,
+                f"`{res}`, the value returned by the configured slug function, reaches the slug table without a test that it is a str{extra}: a function without `return` makes None a "
+                "key of the table (ResolveAnchorIds then fails with KeyError: 'slug' for every section without a slug) and other non-strings become anchors, instead of one "
+                "[myst.heading_slug] warning per heading",
+            )
 
 
 def _slug_func_field(corpus: Corpus) -> tuple[str, ast.AnnAssign, "ClassInfo"]:
@@ -3285,8 +3443,17 @@ def mutants(corpus: Corpus):
                 out.append(Mutant("c10-revert-511da59-cli-uses-plugin-slugify", "C10.R2", cli_.rel, splice(cli_.src, use_, new_), expect="renderer's default slug function"))
         # revert 8355bc2: input decoded as plain utf8
         enc = find_node(pa_, lambda n: isinstance(n, ast.Constant) and isinstance(n.value, str) and n.value.lower().replace("_", "-") in ("utf-8-sig", "utf8-sig"))
+        bomcall = find_node(pa_, lambda n: isinstance(n, ast.Call) and isinstance(n.func, ast.Attribute) and n.func.attr in ("removeprefix", "lstrip") and n.args and isinstance(n.args[0], ast.Constant) and n.args[0].value == "\ufeff")
+        if bomcall is not None:
+            recv = segment(cli_.src, bomcall.func.value)
+            # revert e0958d9 and partial weakenings: the text from stdin keeps its mark
+            out.append(Mutant("c10-revert-e0958d9-stdin-bom-kept", "C10.R2", cli_.rel, splice(cli_.src, bomcall, recv), expect="standard input"))
+            out.append(Mutant("c10-stdin-bom-removed-at-the-wrong-end", "C10.R2", cli_.rel, splice(cli_.src, bomcall, f'{recv}.removesuffix("\\ufeff")'), expect="standard input"))
+            out.append(Mutant("c10-stdin-bom-wrong-code-point", "C10.R2", cli_.rel, splice(cli_.src, bomcall, f'{recv}.removeprefix("\\ufffe")'), expect="standard input"))
         if enc is not None:
-            out.append(Mutant("c10-revert-8355bc2-bom-kept", "C10.R2", cli_.rel, splice(cli_.src, enc, '"utf8"'), expect="byte order mark"))
+            # revert 8355bc2: with the text itself stripped the encoding alone is harmless; both routes reverted
+            s_ = splice(cli_.src, bomcall, segment(cli_.src, bomcall.func.value)) if bomcall is not None and bomcall.lineno > enc.lineno else cli_.src
+            out.append(Mutant("c10-revert-8355bc2-bom-kept", "C10.R2", cli_.rel, splice(s_, enc, '"utf8"'), expect="decoded without a byte order mark"))
     except Unsupported:
         pass
     # revert 4dae2c7: front matter may set global-only options again
@@ -3437,6 +3604,15 @@ def mutants(corpus: Corpus):
         kd = find_node(rd, lambda n: isinstance(n, (ast.Assign, ast.AnnAssign)) and n.value is not None and isinstance(n.value, ast.Subscript) and isinstance(n.value.slice, ast.Constant) and n.value.slice.value == "reftargetid")
         if kd is not None:
             out.append(Mutant("c10-doc-anchor-lookup-case-folded", "C10.R5", rm_.rel, splice(rm_.src, kd.value, f"({segment(rm_.src, kd.value)} or '').lower()"), expect="as written"))
+    # ---- R4: revert 47dc5e3 and partial weakenings of the result-type check
+    tchk = find_node(cus, lambda n: isinstance(n, ast.If) and any(isinstance(x, ast.Call) and dotted(x.func) == "isinstance" for x in ast.walk(n.test)) and any(isinstance(x, ast.Raise) for x in n.body))
+    if tchk is not None:
+        ic = [x for x in ast.walk(tchk.test) if isinstance(x, ast.Call) and dotted(x.func) == "isinstance"][0]
+        rn = segment(src, ic.args[0])
+        out.append(Mutant("c10-revert-47dc5e3-result-unchecked", "C10.R4", base.rel, splice(src, tchk.test, "False"), expect="checked to be a string"))
+        out.append(Mutant("c10-result-check-none-only", "C10.R4", base.rel, splice(src, tchk.test, f"{rn} is None"), expect="checked to be a string"))
+        out.append(Mutant("c10-result-check-admits-int", "C10.R4", base.rel, splice(src, ic.args[1], "(str, int)"), expect="checked to be a string"))
+        out.append(Mutant("c10-result-check-only-asserted", "C10.R4", base.rel, splice(src, tchk, f"assert isinstance({rn}, str) or True"), expect="checked to be a string"))
     # ---- R3(b): class "the configuration validator rejects a documented depth"
     cmn = corpus.mod("config.main")
     ci_ = cmn.classes.get("MdParserConfig")
